@@ -1,16 +1,16 @@
 """C07 -- max_advance is a sound promise."""
-from props.common import other_tasks, contract_tasks, TRUSTED_CORE, SCHED_ASSUMPTIONS
+from props.common import lemma_tasks, other_tasks, contract_tasks, TRUSTED_CORE, SCHED_ASSUMPTIONS, CLOSURE_ASSUMPTION
 PROPERTY = "C07"
 def tasks(tier):
     return (contract_tasks("contracts.scheduler", "C07")
-            + other_tasks("contracts.closure", "C07", "bounded") + other_tasks("contracts.determinism_bounded", "C07", "bounded")
+            + contract_tasks("contracts.closure_ded", "C07") + lemma_tasks("contracts.closure_ded", "C07") + other_tasks("contracts.closure", "C07", "bounded") + other_tasks("contracts.determinism_bounded", "C07", "bounded")
             + contract_tasks("contracts.tiered_time", "C08"))
 TRUSTED_BASE = TRUSTED_CORE
-ASSUMPTIONS = SCHED_ASSUMPTIONS
-NOT_COVERED = ["the promise as a whole-run statement ('not stepped in (t, m] for an outside reason') needs a history invariant PM over all later schedule_step calls of other simulators; it is NOT built. Decided: the function computing m (exact characterisation: the minimum over triggering ancestors of their next / current step plus distance, capped by until), and the closure it reads by a bounded stand-in", 'triggering_ancestors (cache_triggering_ancestors) by a bounded stand-in only']
-LEVEL_TEXT = 'Function-level contract of get_max_advance (exact characterisation incl. in-flight ancestors, m <= until, m = until without trigger inputs, frame) for all states satisfying the invariant; bounded stand-in for the ancestor closure. The whole-run promise invariant is not built (see not_covered). End to end (BOUNDED, not a proof): in every run of the differential harness (all scenarios x configurations x interleavings; bound in coverage.bounded[].bound) the max_advance handed to each step is checked against the steps that follow.'
+ASSUMPTIONS = SCHED_ASSUMPTIONS + [CLOSURE_ASSUMPTION]
+NOT_COVERED = ["the promise as a whole-run statement ('not stepped in (t, m] for an outside reason') needs a history invariant PM over all later schedule_step calls of other simulators; it is NOT built. Decided: the function computing m (exact characterisation: the minimum over triggering ancestors of their next / current step plus distance, capped by until), and the closure it reads (cache_triggering_ancestors: contract, minimum over all trigger paths)", 'the link between the closure contract (abstract delay algebra) and the trig_static facts assumed by get_max_advance is argued, not mechanised']
+LEVEL_TEXT = 'Function-level contract of get_max_advance (exact characterisation incl. in-flight ancestors, m <= until, m = until without trigger inputs, frame) for all states satisfying the invariant; contract on the ancestor closure cache_triggering_ancestors (every entry is the delay of a trigger path, not above the delay of ANY trigger path: sound / direct / closed loop invariants plus two path-induction lemmas; bounded stand-in kept alongside). The whole-run promise invariant is not built (see not_covered). End to end (BOUNDED, not a proof): in every run of the differential harness (all scenarios x configurations x interleavings; bound in coverage.bounded[].bound) the max_advance handed to each step is checked against the steps that follow.'
 DESIGN_REF = "DESIGN.md section 8 (C07)"
 LEVEL_NOTE = "Partly decided. Trusted: pyvc encoder, time/delay algebra axioms with C08 provenance, static table typing (static_ok), z3/cvc5. Fixed through this check: F3' (6862ef0)."
-TECHNIQUE = 'contract-based deductive verification (get_max_advance) + bounded stand-in for the ancestor closure'
+TECHNIQUE = 'contract-based deductive verification (get_max_advance, cache_triggering_ancestors with path-induction lemmas); bounded stand-ins alongside'
 CLAIMED = True
 NA_REASON = ""
